@@ -175,3 +175,24 @@ Theorem C05_variables_no_default : forall fuel S ds inputs vars d,
   jlookup (v_name d) vars = JNull.
 Proof. exact variables_no_default. Qed.
 Print Assumptions C05_variables_no_default.
+
+(* ---- literals that mention variables at any depth (Exec/CoerceSpec.v SLv; proofs in
+   Proofs/CoerceVarsProofs.v): a variable inside a list literal or an input-object literal stands
+   for its coerced value, everything else is coerced as a constant literal (list-of-one wrapping,
+   nested input objects with input-field defaults, enum internal values, custom scalars); the
+   argument map a resolver receives is exactly the specified one. *)
+From GQL Require Import Proofs.CoerceVarsProofs.
+Theorem C05_literal_with_variables_correct : forall S vars t l r, SLv S vars t l r ->
+  forall fuel r', value_from_ast fuel S t l (Some vars) = Some r' -> r' = r.
+Proof. exact literal_vars_correct. Qed.
+Print Assumptions C05_literal_with_variables_correct.
+
+Theorem C05_arguments_with_variables : forall S vars defs args kvs, SLvF S vars defs args kvs ->
+  forall fuel m, get_argument_values fuel S defs args (Some vars) = Some m -> m = keep_nonnull kvs.
+Proof. exact arguments_SLvF. Qed.
+Print Assumptions C05_arguments_with_variables.
+
+(* constant literals are the special case: every SL derivation is an SLv derivation *)
+Theorem C05_constant_literals_special_case : forall S vars t l r, SL S t l r -> SLv S vars t l r.
+Proof. intros S vars. exact (proj1 (SL_SLv_all S vars)). Qed.
+Print Assumptions C05_constant_literals_special_case.
